@@ -76,7 +76,7 @@ def run(ctx):
     # no O_EXCL / create_new lock files
     excl = anchors.bodies_calling(prog, r"std::fs::OpenOptions::create_new|std::fs::File::create_new")
     ctx.ob("R10.3", "no-lock-by-existence", not excl, detail="no create_new/O_EXCL file creation anywhere (%d bodies)" % len(prog.bodies) if not excl else "exclusive file creation: %s" % [b.key for b in excl])
-    lm = prog.one(r"state::LockManager::open")
+    lm = anchors.lock_opener(prog)
     # `.truncate(false)` / `.create_new(false)` spell the default out: only a flag that is (or may be) set counts
     ok = bool(BA.of(lm).calls(r"std::fs::OpenOptions::open")) and not _flag_setters(lm, r"std::fs::OpenOptions::(truncate|create_new)")
     ctx.ob("R10.3", "positive-control|LockManager::open-found", ok, where=lm.span, detail="the lock file is opened read/write/create, never truncated or created exclusively")
